@@ -568,6 +568,7 @@ Eval(ln, w) ==
       [] ln.op \in {"ResAdd", "ResRemove"} -> EvRes(ln, w)
       [] ln.op = "GC" -> Res(w, <<>>, {})
       [] ln.op = "RegisterTypes" -> Res(w, OutcomeChecks(ln, LockWhy(w)), {})
+      [] ln.op = "MoveStress" -> Res(w, << Chk("C14", "moves-under-gc-pressure-do-not-fail", ~ln.res.panic) >>, {})
       [] ln.op = "GCCheck" ->
             Res(w, << Chk("C14", "gc-checkpoint-ran", ~ln.res.panic),
                       Chk("C14", "unreferenced-payloads-released", ln.res.panic \/ ln.gc.leaked = <<>>) >>, {})
@@ -580,11 +581,20 @@ PropIds == { "DRIFT", "C01", "C02", "C03", "C04", "C05", "C06", "C07", "C08", "C
 
 Failed(cs) == SelectSeq(cs, LAMBDA c : ~c[3])
 
+(* C14: a pointer-carrying component must never be MOVED by untyped copies: GcBarrier.tla shows that a raw  *)
+(* copy into a column combined with raw zeroing of the source slot loses the referent under some collector *)
+(* schedule (a typed copy or a typed zeroing alone keeps it safe).                                          *)
+RawChecks(ln) ==
+    IF "raw" \in DOMAIN ln
+    THEN << Chk("C14", "no-unbarriered-move-of-pointer-components", ~(ln.raw.copies > 0 /\ ln.raw.zeros > 0)) >>
+    ELSE <<>>
+
 AllChecks(ln, w, r) ==
     IF r.skip THEN r.c
     ELSE r.c \o ObsChecks(r.g, ln.obs) \o PoolChecks(ln, w, r.g)
              \o (IF "sweep" \in DOMAIN ln THEN SweepChecks(r.g, ln.sweep) ELSE <<>>)
              \o (IF ln.op = "NewWorld" THEN <<>> ELSE EventChecks(w, r.g, ln.events, r.evs))
+             \o RawChecks(ln)
 
 ---------------------------------------------------------------------------
 (* Layer-2 conformance: the hidden state logged by the hook (World.VerifShape) evolves exactly as     *)
@@ -714,6 +724,10 @@ TwinChecks(ln) ==
           Chk("C17", "dump-loads-the-same-again",
               "reload" \notin DOMAIN ln \/ (ln.reload.ok /\ PoolOf(ln.reload) = PoolOf(ln.dumpThen)
                                             /\ SetOf(ln.reload.alive) = SetOf(ln.dumpThen.alive))),
+          (* C02 after LoadEntities: a third world that loads the dump has exactly the dumped alive set, *)
+          (* whatever another world that loaded the same dump did in the meantime                        *)
+          Chk("C02", "loaded-world-alive-set-is-the-dumped-one",
+              "reload" \notin DOMAIN ln \/ (ln.reload.ok /\ PAliveSet(PoolOf(ln.reload)) = PAliveSet(PoolOf(ln.dumpThen)))),
           Chk("C17", "twin-second-dump-identical",
               ln.of # "Dump" \/ (a.res.panic = b.res.panic /\
                                    (a.res.panic \/ (PoolOf(a.dump) = PoolOf(b.dump) /\ SetOf(a.dump.alive) = SetOf(b.dump.alive))))) >>
